@@ -216,6 +216,28 @@ Theorem C16_refuted_K_lower_collision : refuted CNew ["-type=Order,ORDER"] w_col
 Proof. exact refuted_lower_collision. Qed.
 Print Assumptions C16_refuted_K_lower_collision.
 
+(* two of the classes characterised in general (not only on the witness): *)
+
+(* `-type=*` where no //go:generate line ends with the command line: for EVERY
+   well-formed package with something eligible, all of it goes to the dot-file
+   .shoot<cmd>.go, which is named after no source file; the reading is violated *)
+Theorem C16_star_without_generate_line : forall o c fl p, perm_oracle o -> wf_pkgb p = true ->
+  fl_specified fl = false -> fl_sep fl = false -> fl_file fl = "" -> all_in_one_file fl p = "" ->
+  existsb (test_node_list c) (local_specs p) = false -> spec_selection c fl p <> [] ->
+  run o c fl p = Done [("." ++ shootcmd c ++ ".go", spec_selection c fl p)] (o _ ["." ++ shootcmd c ++ ".go"]) /\
+  anchored c p ("." ++ shootcmd c ++ ".go") = false /\
+  meets c p (run o c fl p) (spec c fl p) = false.
+Proof. exact star_without_generate_line. Qed.
+Print Assumptions C16_star_without_generate_line.
+
+(* `shoot enum -type=...,T`: a T that is not eligible, no alias and without typed
+   constants is skipped silently (no diagnostic, no file), whatever the package *)
+Theorem C16_enum_unknown_name_skipped : forall p b T,
+  nameable CEnum p T = false -> alias_named p T = false -> consts_of p T = 0 ->
+  make_data CEnum p b T = MSkip.
+Proof. exact enum_unknown_name_skipped. Qed.
+Print Assumptions C16_enum_unknown_name_skipped.
+
 (* ------------------------------------------------------------ non-vacuity *)
 
 (* a three-file package mixing eligible and ineligible declarations of every kind
